@@ -142,8 +142,12 @@ def identity(kind):
 
 # ------------------------------------------------------- measurement models
 def odo_err(kind, p1, p2, z):
-    """compact( z (-) (p2 (-) p1) )"""
-    return compact(kind, ominus(kind, z, ominus(kind, p2, p1)))
+    """compact( z (-) (p2 (-) p1) ); for SE(3) the error quaternion is taken with non-negative scalar part
+    (q and -q are the same rotation), so the error is a function of the physical poses only."""
+    e = ominus(kind, z, ominus(kind, p2, p1))
+    if kind == "se3" and val(e[6]) < 0.0:
+        e = e[:3] + [-x for x in e[3:]]
+    return compact(kind, e)
 
 
 def lm_err(kind, p1, off, l, z):
